@@ -242,6 +242,11 @@ func (g *G) genPattern(forLine bool) *Pattern {
 		switch k {
 		case "lit":
 			t.Lit = pick(g, "lit", litWords)
+			if g.F.HostileStrings && g.chance("hostilepat", 20) {
+				// slashes and backslashes inside a pattern literal (source spelling)
+				t.Lit = pick(g, "hostilelit", []string{`http:\/\/x`, `a\\\/b`, `\\`, `\/`, `c:\\\\d`, `\\\\\/`})
+				g.class("pattern-with-slash-or-backslash")
+			}
 		case "const":
 			t.Lit = g.P.Consts[g.intn("constidx", len(g.P.Consts))].Name
 			g.used[t.Lit] = true
